@@ -22,7 +22,7 @@ PART = 'scared.distinguishers.partitioned'
 def d1(ctx, prog):
     ci = prog.need_class(PART, 'PartitionedDistinguisherMixin')
     from .. import normalize
-    f = normalize.normal(prog, prog.resolve_method(ci, '_compute'), skip={'_compute_metric'})
+    f = normalize.propagate_access_paths(normalize.normal(prog, prog.resolve_method(ci, '_compute'), skip={'_compute_metric'}))
     calls = [c for c in ast.walk(f.node) if isinstance(c, ast.Call) and isinstance(c.func, ast.Attribute) and c.func.attr == '_compute_metric']
     if len(calls) != 1:
         raise AnalysisError('partitioned _compute does not call _compute_metric exactly once')
